@@ -326,3 +326,33 @@ def tuple_helpers(repo: Repo, f: Func) -> List[Tuple[Func, dict]]:
                                     ren[x.id] = t.id
                     out.append((g, ren))
     return out
+
+
+def eval3(e: ast.AST, atom: Callable[[ast.AST], Optional[bool]]) -> Optional[bool]:
+    """Three-valued evaluation of a boolean expression under a scenario: `atom` gives the truth of the comparisons / names it knows (None = unknown);
+    and / or / not are evaluated with Kleene's rules.  A guard holds in the scenario when a dominating fact (t, pol) has eval3(t) == (not pol)."""
+    v = atom(e)
+    if v is not None:
+        return v
+    if isinstance(e, ast.UnaryOp) and isinstance(e.op, ast.Not):
+        x = eval3(e.operand, atom)
+        return None if x is None else not x
+    if isinstance(e, ast.BoolOp):
+        vs = [eval3(x, atom) for x in e.values]
+        if isinstance(e.op, ast.And):
+            return False if any(x is False for x in vs) else (True if all(x is True for x in vs) else None)
+        return True if any(x is True for x in vs) else (False if all(x is False for x in vs) else None)
+    if isinstance(e, ast.Compare) and len(e.ops) == 1 and type(e.ops[0]) in (ast.NotEq, ast.IsNot, ast.NotIn):
+        pos = ast.Compare(left=e.left, ops=[{ast.NotEq: ast.Eq, ast.IsNot: ast.Is, ast.NotIn: ast.In}[type(e.ops[0])]()], comparators=e.comparators)
+        x = atom(pos)
+        return None if x is None else not x
+    return None
+
+
+def excluded_by(facts: Iterable[Tuple[ast.AST, bool]], atom: Callable[[ast.AST], Optional[bool]]) -> bool:
+    """Is the scenario described by `atom` impossible at a point with these dominating facts (some fact is contradicted)?"""
+    for t, pol in facts:
+        v = eval3(t, atom)
+        if v is not None and v != pol:
+            return True
+    return False
